@@ -116,11 +116,20 @@ func runC01(p *core.Prog, r *core.Result) {
 	}
 	upToDate0 := extractOf(m.UpToDate, 0)
 	for i, c := range ups {
+		xs := xfacts(p, c)
+		findX := func(pred func(f xfact) bool) bool {
+			for _, f := range xs {
+				if pred(f) {
+					return true
+				}
+			}
+			return false
+		}
 		atoms := map[string]bool{
-			"not forced (Project.always is false)": holds(p, c, false, func(v ssa.Value) bool { return projField(v, "always") }),
-			"own check reports up to date":         holds(p, c, true, func(v ssa.Value) bool { return upToDate0 != nil && v == upToDate0 }),
-			"no re-run pending (info.Rerun false)": holds(p, c, false, func(v ssa.Value) bool { return m.infoField(v, "Rerun") }),
-			"every dependency up to date":          p.FactsAt(c).Find(depsFresh),
+			"not forced (Project.always is false)": findX(func(f xfact) bool { return !f.Val && projField(f.Cond, "always") }),
+			"own check reports up to date":         findX(func(f xfact) bool { return f.Val && upToDate0 != nil && f.Arg(f.Cond) == upToDate0 }),
+			"no re-run pending (info.Rerun false)": findX(func(f xfact) bool { return !f.Val && m.infoFieldX(f.Cond, "Rerun", f.Arg) }),
+			"every dependency up to date":          findX(func(f xfact) bool { return depsFresh(f.Arg(f.Cond), f.Val) }),
 		}
 		var names []string
 		for name := range atoms {
@@ -154,19 +163,27 @@ func runC01(p *core.Prog, r *core.Result) {
 					continue // loop entry (initial value)
 				}
 				keep++
-				fs := efs[i]
-				hasRecord := fs.Find(func(c ssa.Value, v bool) bool {
+				fs := xfactsOf(p, efs[i])
+				find := func(pred func(c ssa.Value, v bool, arg func(ssa.Value) ssa.Value) bool) bool {
+					for _, f := range fs {
+						if pred(f.Cond, f.Val, f.Arg) {
+							return true
+						}
+					}
+					return false
+				}
+				hasRecord := find(func(c ssa.Value, v bool, arg func(ssa.Value) ssa.Value) bool {
 					ex, ok := c.(*ssa.Extract)
 					if !ok || ex.Index != 1 || !v {
 						return false
 					}
 					lk, ok := ex.Tuple.(*ssa.Lookup)
-					return ok && m.recordedDeps(lk.X)
+					return ok && m.recordedDepsX(lk.X, arg)
 				})
-				notChanged := fs.Find(func(c ssa.Value, v bool) bool {
+				notChanged := find(func(c ssa.Value, v bool, arg func(ssa.Value) ssa.Value) bool {
 					return !v && core.LoadOfField(c, pkgRoot, "runTarget", "changed")
 				})
-				sameStamp := fs.Find(func(c ssa.Value, v bool) bool {
+				sameStamp := find(func(c ssa.Value, v bool, arg func(ssa.Value) ssa.Value) bool {
 					b, ok := c.(*ssa.BinOp)
 					if !ok || (b.Op != token.NEQ && b.Op != token.EQL) || (b.Op == token.NEQ) == v {
 						return false
@@ -178,7 +195,7 @@ func runC01(p *core.Prog, r *core.Result) {
 							return false
 						}
 						lk, ok := ex.Tuple.(*ssa.Lookup)
-						return ok && m.recordedDeps(lk.X)
+						return ok && m.recordedDepsX(lk.X, arg)
 					}
 					return isCur(b.X) && isPrev(b.Y) || isCur(b.Y) && isPrev(b.X)
 				})
@@ -193,14 +210,50 @@ func runC01(p *core.Prog, r *core.Result) {
 		r.Floor("R1.2", keep, 1, "edges on which a dependency is considered up to date")
 		// the same dependency is looked up, compared and recorded: lookup key == MapUpdate key of depData
 		okKey := false
+		keyMatches := func(key ssa.Value) {
+			core.Instrs(m.DepsFn, func(in2 ssa.Instruction) {
+				if mu, ok := in2.(*ssa.MapUpdate); ok && mu.Map == m.DepData && mu.Key == key {
+					okKey = true
+				}
+			})
+		}
 		core.Instrs(m.DepsFn, func(in ssa.Instruction) {
-			lk, ok := in.(*ssa.Lookup)
-			if !ok || !m.recordedDeps(lk.X) {
+			if lk, ok := in.(*ssa.Lookup); ok && m.recordedDeps(lk.X) {
+				keyMatches(lk.Index)
+			}
+			// the lookup may be performed by a helper predicate that is handed the record and the label
+			call, ok := in.(*ssa.Call)
+			if !ok {
 				return
 			}
-			core.Instrs(m.DepsFn, func(in2 ssa.Instruction) {
-				if mu, ok := in2.(*ssa.MapUpdate); ok && mu.Map == m.DepData && mu.Key == lk.Index {
-					okKey = true
+			h := core.Callee(call)
+			if h == nil || h.Blocks == nil || h.Pkg != m.DepsFn.Pkg {
+				return
+			}
+			subst := map[ssa.Value]ssa.Value{}
+			for i, prm := range h.Params {
+				if i < len(call.Call.Args) {
+					subst[prm] = call.Call.Args[i]
+				}
+			}
+			arg := func(v ssa.Value) ssa.Value {
+				if a, ok := subst[v]; ok {
+					return a
+				}
+				if al, ok := v.(*ssa.Alloc); ok {
+					for _, ref := range *al.Referrers() {
+						if st, ok := ref.(*ssa.Store); ok && st.Addr == ssa.Value(al) {
+							if a, ok := subst[st.Val]; ok {
+								return a
+							}
+						}
+					}
+				}
+				return v
+			}
+			core.Instrs(h, func(in2 ssa.Instruction) {
+				if lk, ok := in2.(*ssa.Lookup); ok && m.recordedDepsX(lk.X, arg) {
+					keyMatches(arg(lk.Index))
 				}
 			})
 		})
@@ -360,7 +413,7 @@ func checkDirHash(p *core.Prog, r *core.Result, rule string) {
 			if !(c.Common().IsInvoke() && c.Common().Method.Name() == "Write") {
 				continue
 			}
-			if core.DependsOn(c.Common().Args[0], core.SliceOpts{Stores: true, ThroughCall: pure}, func(v ssa.Value) bool {
+			if core.DependsOn(c.Common().Args[0], core.SliceOpts{Stores: true, Helpers: true, ThroughCall: pure}, func(v ssa.Value) bool {
 				cc, ok := v.(*ssa.Call)
 				return ok && cc.Call.IsInvoke() && cc.Call.Method.Name() == "Name"
 			}) {
@@ -443,22 +496,49 @@ func checkGeneratorLinking(p *core.Prog, r *core.Result) {
 				return
 			}
 			n++
+			// the store is in link, or in a helper that only link calls (its parameters then stand for link's arguments)
+			var site *ssa.Call
 			if f != link {
-				r.Bad("R1.6", fname(f)+"#stores-generator", p.InstrPos(st), "sourceFile.generator is assigned outside (*Project).link")
-				return
+				callers := p.StaticCallers(f)
+				only := len(callers) > 0 && len(p.FuncValueUses(f)) == 0
+				for _, c := range callers {
+					if c.Parent() != link {
+						only = false
+					}
+					site, _ = c.(*ssa.Call)
+				}
+				if !only || site == nil || len(callers) != 1 {
+					r.Bad("R1.6", fname(f)+"#stores-generator", p.InstrPos(st), "sourceFile.generator is assigned outside (*Project).link")
+					return
+				}
+			}
+			toLink := func(v ssa.Value) ssa.Value {
+				v = core.Unwrap(v)
+				if site == nil {
+					return v
+				}
+				if prm, ok := v.(*ssa.Parameter); ok {
+					for i, q := range f.Params {
+						if q == prm && i < len(site.Call.Args) {
+							return core.Unwrap(site.Call.Args[i])
+						}
+					}
+				}
+				return v
 			}
 			// value: Label() of the target whose generates() is being iterated
 			lbl, ok := st.Val.(*ssa.Call)
 			okv := ok && lbl.Call.IsInvoke() && lbl.Call.Method.Name() == "Label"
 			gens := false
 			if okv {
+				recv := toLink(lbl.Call.Value)
 				for _, c := range core.Calls(link) {
-					if c.Common().IsInvoke() && c.Common().Method.Name() == "generates" && core.Unwrap(c.Common().Value) == core.Unwrap(lbl.Call.Value) {
+					if c.Common().IsInvoke() && c.Common().Method.Name() == "generates" && core.Unwrap(c.Common().Value) == recv {
 						gens = true
 					}
 					if c.Common().IsInvoke() && c.Common().Method.Name() == "generates" {
 						// same target field load (two loads of t.target): compare paths
-						if core.Path(c.Common().Value) == core.Path(lbl.Call.Value) {
+						if core.Path(c.Common().Value) == core.Path(recv) {
 							gens = true
 						}
 					}
@@ -476,14 +556,28 @@ func checkGeneratorLinking(p *core.Prog, r *core.Result) {
 		}
 	})
 	r.Check(ranges, "R1.6", "dawn.(*Project).link#all-targets", p.Pos(link.Pos()), "link visits every target of the project", "link does not range over Project.targets")
-	// every successful return of the full-load path is after link succeeded
-	for i, ret := range core.ReturnsOf(load) {
+	// every successful return of the full-load path is after link succeeded. The full load (the part that runs
+	// loadPackage) is load itself or a helper of the package that load calls.
+	fullFn := load
+	var fullSites []*ssa.Call
+	if len(core.CallsTo(load, loadPackage)) == 0 {
+		for _, c := range core.Calls(load) {
+			h := core.Callee(c)
+			call, isCall := c.(*ssa.Call)
+			if isCall && h != nil && h.Pkg == load.Pkg && h.Blocks != nil && len(core.CallsTo(h, loadPackage)) > 0 {
+				fullFn = h
+				fullSites = append(fullSites, call)
+			}
+		}
+	}
+	nFull := 0
+	for i, ret := range core.ReturnsOf(fullFn) {
 		vals := core.RetVals(ret)
 		if len(vals) != 1 || !core.IsNilConst(vals[0]) {
 			continue
 		}
 		full := false
-		for _, c := range core.CallsTo(load, loadPackage) {
+		for _, c := range core.CallsTo(fullFn, loadPackage) {
 			if core.Dominates(c.(ssa.Instruction), ret) {
 				full = true
 			}
@@ -491,8 +585,9 @@ func checkGeneratorLinking(p *core.Prog, r *core.Result) {
 		if !full {
 			continue
 		}
+		nFull++
 		ok := false
-		for _, c := range core.CallsTo(load, link) {
+		for _, c := range core.CallsTo(fullFn, link) {
 			if call, isCall := c.(*ssa.Call); isCall && core.Dominates(call, ret) {
 				if nn, known := p.FactsAt(ret).ErrNonNil(call); known && !nn {
 					ok = true
@@ -500,6 +595,23 @@ func checkGeneratorLinking(p *core.Prog, r *core.Result) {
 			}
 		}
 		r.Check(ok, "R1.6", fmt.Sprintf("dawn.(*Project).load#link-before-success-%d", i+1), p.InstrPos(ret), "a full load succeeds only after link succeeded", "a full load can succeed without linking generated files to their generators: editing a generator's inputs no longer rebuilds consumers of the generated file")
+	}
+	r.Floor("R1.6", nFull, 1, "successful returns of the full-load path")
+	// load reports the helper's failure: after the call it returns the call's own result, or nil only where that is nil
+	for _, site := range fullSites {
+		for i, ret := range core.ReturnsOf(load) {
+			if !core.InstrReaches(site, ret) {
+				continue
+			}
+			vals := core.RetVals(ret)
+			ok := len(vals) == 1 && core.Unwrap(vals[0]) == ssa.Value(site)
+			if !ok && len(vals) == 1 {
+				if nn, known := p.FactsAt(ret).ErrNonNil(site); known && (!nn || !core.IsNilConst(vals[0])) {
+					ok = true
+				}
+			}
+			r.Check(ok, "R1.6", fmt.Sprintf("dawn.(*Project).load#full-load-result-%d", i+1), p.InstrPos(ret), "load reports the outcome of the full load ("+fname(fullFn)+")", "load can succeed although the full load ("+fname(fullFn)+") failed: a failed link goes unnoticed")
+		}
 	}
 	// dependencies() returns the generator when set
 	okDeps := false
